@@ -35,7 +35,7 @@ type SessState struct {
 	CPSEID uint64
 	UPSEID uint64
 	Live   bool
-	NodeID string // the peer's Node ID when the session was established (the label of its unit in the gauge)
+	NodeID string      // the peer's Node ID when the session was established (the label of its unit in the gauge)
 	PDRs   []model.PDR // in creation order
 	FARs   []model.FAR
 	QERs   []model.QER
